@@ -46,7 +46,7 @@ type State struct {
 
 type epochInfo struct {
 	keep   map[string]bool // kind keepfresh: heap components whose objects allocated by this invocation are preserved
-	kind   string // "", "alloc", "merge", "keepfresh"
+	kind   string          // "", "alloc", "merge", "keepfresh"
 	parent *State
 	bound  string // alloc watermark before the call (kind alloc)
 	conds  []string
@@ -156,9 +156,12 @@ func (vc *VC) frameGoal(h, cur string) string {
 }
 
 type ghostDef struct {
-	name   string
-	heaps  []string
-	result types.Type
+	fuel    bool
+	params  [][2]string     // (name, sort) of the declared parameters
+	bridged map[string]bool // heap tuples already related to the entry heaps by a frame axiom
+	name    string
+	heaps   []string
+	result  types.Type
 }
 
 func (vc *VC) note(f string, a ...interface{}) { vc.notes[fmt.Sprintf(f, a...)] = true }
@@ -400,10 +403,10 @@ func ite(c, a, b string) string {
 // Locations
 
 type pathElem struct {
-	field int        // >=0: struct field of structT
+	field   int // >=0: struct field of structT
 	structT types.Type
-	index string     // array index term (field == -1)
-	elemT types.Type // type of the selected component
+	index   string     // array index term (field == -1)
+	elemT   types.Type // type of the selected component
 }
 
 type Loc struct {
@@ -574,36 +577,36 @@ type retPoint struct {
 }
 
 type Frame struct {
-	vc       *VC
-	fn       *ssa.Function
-	prefix   string
-	vals     map[ssa.Value][]string
-	locs     map[ssa.Value]*Loc
-	closures map[ssa.Value]*ssa.MakeClosure
-	c        *FuncContract
-	top      bool
-	defers   []*deferRec
-	rets     []retPoint
-	entry    *State
-	parent   *Frame
-	freeVals map[*ssa.FreeVar][]string
-	freeLocs map[*ssa.FreeVar]*Loc
-	freeClos map[*ssa.FreeVar]*ssa.MakeClosure
-	loops    []*loopInfo
-	loopOf   map[*ssa.BasicBlock]*loopInfo // header -> loop
-	blockPC  map[*ssa.BasicBlock]string
-	blockSt  map[*ssa.BasicBlock]*State
-	edgePC   map[[2]int]string
-	iterVis  map[ssa.Value]string // range-over-map iterator -> state key of visited set
-	iterMap  map[ssa.Value]ssa.Value
-	callOrd  map[string]int
-	specEnv  *SpecEnv
-	args     [][]string
-	privAlloc map[*ssa.Alloc]bool
+	vc          *VC
+	fn          *ssa.Function
+	prefix      string
+	vals        map[ssa.Value][]string
+	locs        map[ssa.Value]*Loc
+	closures    map[ssa.Value]*ssa.MakeClosure
+	c           *FuncContract
+	top         bool
+	defers      []*deferRec
+	rets        []retPoint
+	entry       *State
+	parent      *Frame
+	freeVals    map[*ssa.FreeVar][]string
+	freeLocs    map[*ssa.FreeVar]*Loc
+	freeClos    map[*ssa.FreeVar]*ssa.MakeClosure
+	loops       []*loopInfo
+	loopOf      map[*ssa.BasicBlock]*loopInfo // header -> loop
+	blockPC     map[*ssa.BasicBlock]string
+	blockSt     map[*ssa.BasicBlock]*State
+	edgePC      map[[2]int]string
+	iterVis     map[ssa.Value]string // range-over-map iterator -> state key of visited set
+	iterMap     map[ssa.Value]ssa.Value
+	callOrd     map[string]int
+	specEnv     *SpecEnv
+	args        [][]string
+	privAlloc   map[*ssa.Alloc]bool
 	initGlobals []*ssa.Global
 	lookupIn    *lookupInfo
 	closureCell map[*ssa.Alloc]*ssa.MakeClosure
-	privHeaps map[string]bool // slice-element heaps whose arrays allocated here never escape (type-based)
+	privHeaps   map[string]bool // slice-element heaps whose arrays allocated here never escape (type-based)
 }
 
 type loopInfo struct {
@@ -1286,7 +1289,7 @@ func (fr *Frame) enterLoop(li *loopInfo, pc string, st *State) (string, *State) 
 		env := fr.loopEnv(li, st)
 		var invs []string
 		for _, inv := range spec.Invariants {
-			t, err := env.boolExpr(inv.E)
+			t, err := env.assumeExpr(inv.E)
 			if err != nil {
 				vc.failed = fmt.Errorf("%s loop %d invariant %s: %v", vc.name, li.ordinal, inv.Name, err)
 				return pc, st
@@ -1728,4 +1731,52 @@ func (fr *Frame) locsPrivate(addr ssa.Value) (*ssa.Alloc, bool) {
 type lookupInfo struct {
 	key, val, ok string
 	keyT, valT   types.Type
+}
+
+// typeParam resolves a type parameter name of the function under verification (generic bodies are verified with their
+// type parameters as abstract sorts).
+func (vc *VC) typeParam(name string) types.Type {
+	if vc.fn == nil {
+		return nil
+	}
+	var found types.Type
+	var visit func(t types.Type, depth int)
+	seen := map[types.Type]bool{}
+	visit = func(t types.Type, depth int) {
+		if t == nil || depth > 6 || seen[t] || found != nil {
+			return
+		}
+		seen[t] = true
+		switch x := t.(type) {
+		case *types.TypeParam:
+			if x.Obj().Name() == name {
+				found = x
+			}
+		case *types.Pointer:
+			visit(x.Elem(), depth+1)
+		case *types.Slice:
+			visit(x.Elem(), depth+1)
+		case *types.Map:
+			visit(x.Key(), depth+1)
+			visit(x.Elem(), depth+1)
+		case *types.Named:
+			if ta := x.TypeArgs(); ta != nil {
+				for i := 0; i < ta.Len(); i++ {
+					visit(ta.At(i), depth+1)
+				}
+			}
+		case *types.Tuple:
+			for i := 0; i < x.Len(); i++ {
+				visit(x.At(i).Type(), depth+1)
+			}
+		case *types.Signature:
+			visit(x.Params(), depth+1)
+			visit(x.Results(), depth+1)
+		}
+	}
+	for _, p := range vc.fn.Params {
+		visit(p.Type(), 0)
+	}
+	visit(vc.fn.Signature, 0)
+	return found
 }
